@@ -996,8 +996,14 @@ impl<'tera> VirtualMachine<'tera> {
             component_recursion_depth: self.component_recursion_depth,
         };
 
+        // Like a top level render, a template that extends another one starts from the body of
+        // its root ancestor
+        let chunk = match tpl.parents.first() {
+            Some(base_tpl_name) => &self.tera.must_get_template(base_tpl_name)?.chunk,
+            None => &tpl.chunk,
+        };
         // We create a dummy state for variables to be written to, but we don't keep it around
-        let mut include_state = State::new_with_chunk(state.context, &tpl.chunk);
+        let mut include_state = State::new_with_chunk(state.context, chunk);
         include_state.include_parent = Some(state);
         include_state.filters = Some(&self.tera.filters);
         vm.interpret(&mut include_state, output)?;
